@@ -51,5 +51,15 @@ Concrete(h, i) ==
             [] a.what = "sig" -> [op |-> "rewire", obj |-> "", buf |-> "w", idx |-> SigIdx, elem |-> Enc(Bstr(IF a.vs = "junk" THEN JunkBytes ELSE <<>>))])
 \* every step is followed by a projection of the object, so that edits of the buffer and of the object are both observed
 Steps(h) == <<InitStep>> \o [i \in 1..Len(h) |-> Concrete(h, i)]
+\* exhaustive short behaviours are also generated from later points of the life cycle: after a successful signing, and after a
+\* signed message went over the wire and was parsed (PrefixId 1, 2); GSpec starts where the prefix ends
+CONSTANT PrefixId
+SignA == [op |-> "sign", alg |-> "A", key |-> "k1", ext |-> "none", fault |-> ""]
+Prefix == CASE PrefixId = 0 -> <<>> [] PrefixId = 1 -> <<SignA>> [] PrefixId = 2 -> <<SignA, [op |-> "marshal"], [op |-> "unmarshal"]>>
+RECURSIVE After(_, _, _)
+After(o, w, h) == IF h = <<>> THEN [obj |-> o, wire |-> w] ELSE LET r == Step(o, w, Head(h)) IN After(r.obj, r.wire, Tail(h))
+GInit == LET s == After(InitObj, NoWire, Prefix) IN
+         obj = s.obj /\ wire = s.wire /\ last = [a |-> [op |-> "init"], res |-> "ok"] /\ hist = Prefix
+GSpec == GInit /\ [][Next]_vars
 Emit == Len(hist) < MaxHist \/ PrintT(<<"CASE", ToJson([okind |-> ObjKind, acts |-> hist, steps |-> Steps(hist)])>>)
 =============================================================================
